@@ -29,7 +29,7 @@ def _strip(post):
 def gen(pid, thorough):
     behs = []
     stats = {"states": 0, "transitions": 0}
-    cfgs = ["MC_quick.cfg", "MC_quick2.cfg", "MC_quick3.cfg", "MC_quick4.cfg"] + (["MC_thorough.cfg", "MC_thorough2.cfg"] if thorough else [])
+    cfgs = ["MC_quick.cfg", "MC_quick2.cfg", "MC_quick3.cfg", "MC_quick4.cfg", "MC_quick5.cfg"] + (["MC_thorough.cfg", "MC_thorough2.cfg"] if thorough else [])
     only = os.environ.get("VERIF_DEV_UPD_ONLY")   # development aid: restrict to some configurations
     if only:
         cfgs = [c for c in cfgs if c[:-4] in only.split(",")]
